@@ -176,6 +176,7 @@ struct MetaEngine : Engine {
 					std::string base;
 					for (int i = 0; i < NKEYWORDS; i++) if (norm_key(KEYWORDS[i]) == keys[which]) base = KEYWORDS[i];
 					o["key"] = spell_key(w, base);
+					if (w.chance(1, 4)) o["key"] = blanks(w, 0, 2) + o.gets("key") + blanks(w, 0, 2);      // the caller's spelling may carry blanks around the key too
 				} else o["key"] = "No Such Key";
 			}
 			else if (k < 68 && !keys.empty()) {
